@@ -50,6 +50,27 @@ def run(ctx):
                 cases.append({"set": s, "desc": desc + "|" + dstate, "fs": fs,
                               "vline": L.line_verify("p2", "mem", s.index, 1, fs),
                               "rline": L.line_repair("p2", "mem", s.index, rng.random() < 0.3, 1, fs)})
+    # damage to the PROTECTED files with the archive files intact: "slices reported usable really are intact" must hold
+    # for damage that a checksum alone cannot see - a slice xor-ed with a multiple of the CRC-32 polynomial keeps its
+    # CRC-32 (only the MD5 tells) - at every slice of every file of the second set
+    for s in (ps, big):
+        if s.created is None or s.slice < 8:
+            continue
+        for n in s.files:
+            d0 = s.created[s.paths[n]]
+            for k0 in range(0, max(len(d0) - 7, 0), s.slice):
+                off = k0 + rng.randrange(0, min(s.slice, len(d0) - k0) - 4) if min(s.slice, len(d0) - k0) > 4 else None
+                if off is None:
+                    continue
+                nd = bytearray(d0)
+                for i, x in enumerate(b"\x41\x06\x71\xdb\x01"):     # x^32+x^26+...+1, bit-reflected: crc32 unchanged
+                    nd[off + i] ^= x
+                import zlib
+                assert zlib.crc32(bytes(nd[k0:k0 + s.slice])) == zlib.crc32(d0[k0:k0 + s.slice])
+                fs = dict(s.created); fs[s.paths[n]] = bytes(nd)
+                cases.append({"set": s, "desc": "data-crc-preserving:%s@%d|archive intact" % (n, off), "fs": fs,
+                              "vline": L.line_verify("p2", "mem", s.index, 1, fs),
+                              "rline": L.line_repair("p2", "mem", s.index, rng.random() < 0.3, 1, fs)})
     import os
     aenv = dict(os.environ, VH_ALLOC="1")
     vi = ctx.run_lines(vh, [c["vline"] for c in cases], vmem_kb=4 << 20, timeout=3000, env=aenv)
@@ -91,7 +112,7 @@ def run(ctx):
         extra["par1"] = "PAR1 grid not built yet"
     return ctx.finish(
         "proof",
-        rule="enumerated grid over every file of two created PAR2 sets: truncation at every packet boundary, at every byte of every packet header (every byte of the index file) and sampled payload offsets; every bit of the magic and length fields and two bits per byte of the other header fields of the first packet of each type (thorough: all), sampled payload bits; emptied; garbage (with and without a valid magic); appended garbage; deleted; every subset of deleted archive files; every prefix of Create's write sequence with the last file torn at and inside packet boundaries; each with the data files intact and with one protected file missing; Verify and Repair (30% with double-check) in a child with a 4 GiB address-space limit; non-trivial = the archive file still exists",
+        rule="enumerated grid over every file of two created PAR2 sets: truncation at every packet boundary, at every byte of every packet header (every byte of the index file) and sampled payload offsets; every bit of the magic and length fields and two bits per byte of the other header fields of the first packet of each type (thorough: all), sampled payload bits; emptied; garbage (with and without a valid magic); appended garbage; deleted; every subset of deleted archive files; every prefix of Create's write sequence with the last file torn at and inside packet boundaries; each with the data files intact and with one protected file missing; plus, with the archive intact, every slice of every protected file corrupted so that its CRC-32 is unchanged; Verify and Repair (30% with double-check) in a child with a 4 GiB address-space limit; non-trivial = the archive file still exists",
         exhaustive=True,
         extra=dict(extra, predicate="no panic/crash; usable slices <= slices present; clean => intact; Repair changes only protected files and only to their originals; success => all originals",
                    compared="outcome class, counts, repaired list, I/O trace, changed files vs the extracted model"))
